@@ -144,6 +144,51 @@ YIELD(get() + b)
 }
 YIELD(get())
 RETNIL`, "partial-redeclaration"),
+		G("scope-cursor-shared-by-inner-loops-without-init", `
+pos := 0
+for page := 0; page < 3; page++ {
+	for ; pos < (page+1)*3-page; pos++ {
+		YIELD(page*100 + tr.R(1, pos))
+	}
+}
+bump := func() { pos += 2 }
+for round := 0; round < 3; round++ {
+	for ; pos < 20+round*4; bump() {
+		YIELD(tr.R(2, pos))
+	}
+}
+k := 0
+for tr.B(3) {
+	for ; k%3 != 2; k++ {
+		YIELD(k)
+	}
+	k++
+}
+YIELD(tr.R(4, pos) + k)
+RETNIL`, "for:nip", "shadow"),
+		G("scope-range-over-constant-loop-variable-is-per-iteration", `
+var fs []func() int
+for i := range 3 {
+	fs = append(fs, func() int { return tr.R(1, i) })
+	YIELD(i)
+	i += 10
+	YIELD(i)
+}
+for _, f := range fs {
+	YIELD(f())
+}
+const n = 2
+for j := range n {
+	j *= 5
+	YIELD(j)
+}
+for i := range 4 {
+	if i == 1 {
+		i++
+	}
+	YIELD(tr.R(2, i))
+}
+RETNIL`, "range:int-const", "shadow", "closure-capture-across-yield"),
 		G("scope-body-redeclares-counter", `
 for i := 0; i < 3; i++ {
 	i := i * 10
